@@ -147,6 +147,9 @@ func (p *batchProp[C]) run(t *testing.T) {
 		}
 		anyOK := false
 		for i := range results {
+			if results[i].CompileErr != nil && p.OnGenerated == nil {
+				rec.Excluded("grammar-rejected-by-compiler(conflicts etc.)")
+			}
 			if results[i].Files != nil && results[i].GenErr == nil && results[i].CompileErr == nil {
 				anyOK = true
 			}
@@ -191,6 +194,9 @@ func (p *batchProp[C]) run(t *testing.T) {
 					}
 				} else {
 					rec.Excluded("generated-code-does-not-build(see C17)")
+					if os.Getenv("VERIF_DEBUG") != "" {
+						fmt.Printf("NOT BUILT %s:\n%s\n", units[i].Name, res.BuildLog)
+					}
 				}
 				continue
 			}
